@@ -83,6 +83,19 @@ CHECKS.update({
     ),
 })
 
+CHECKS.update({
+    'C05': dict(
+        script='checks/c05.py', category='model_checking', design='DESIGN.md §4 C05',
+        text=('Kernel lemmas on the real IR of OffsetDateTime/ZonedDateTime/TimeZone with the instant (all int32), the '
+              'offsets and two operands of compareTo as solver variables, under the documented representability '
+              'precondition; LocalDateTime conversions enter as function contracts whose obligations are C06 lemmas. Database '
+              'zones: for a seed-rotated sample of zones every instant of 2000..2049 is shown to get a non-error offset '
+              'within the lemma range (engine run as in C01/C02), and the complete symbolic round trip / conversion is '
+              'executed for a few (zone, year) instances of each kind (extended, basic, manager-created).'),
+        technique='symbolic execution of clang LLVM IR (llsym) + SMT (z3/cvc5 portfolio); function contracts with uninterpreted calendar symbols',
+    ),
+})
+
 NOT_APPLICABLE = {
     'C19': ('the generators are sampling loops around pytz/dateutil tzinfo objects backed by binary tz files and '
             'C-implemented datetime; neither CrossHair nor our symbolic executor can make those symbolic, and a '
